@@ -201,7 +201,7 @@ def gen_chain_consts() -> str:
     out.append(
         "structure Group where\n  name : List Char\n  pattern : String\n  toks : List Tk\n  minIn : Nat\n  maxIn : Option Nat\n  inSep : List Char\n"
         "  vocab : List (List Char × List (List Char))\n  props : List PropSpec\n  inputImpl : List Char\n  matchImpl : List Char\n  hookImpl : List Char\n"
-        "  impls : List (String × String)\n  deriving Repr, Inhabited"
+        "  impls : List (String × String)\n  deriving DecidableEq, Repr, Inhabited"
     )
     out.append("")
     names = []
